@@ -556,11 +556,14 @@ def build(ctx, portable=False):
 # Builds in which an intermediate instruction-set level is the best one
 # compiled in: the 32-bit SSE4.2 CRC32C loop (what an i386 build gets) and the
 # SSE2 SHA-256 compression function (a CPU without SHA extensions).
-EXTRA_BUILDS = [('sse42-32bit-crc', ['X86_CPUID', 'X86_SSE42']), ('sse2-sha256', ['X86_CPUID', 'X86_SSE2'])]
+# ... and the library compiled with -DNDEBUG (assertions compiled out: nothing
+# the results depend on may live inside an assert), with and without CPU features.
+EXTRA_BUILDS = [('sse42-32bit-crc', ['X86_CPUID', 'X86_SSE42']), ('sse2-sha256', ['X86_CPUID', 'X86_SSE2']),
+                ('ndebug', None), ('ndebug-portable', ['X86_CPUID'])]
 
 
 def build_cpu(ctx, tag, cpu):
-    objs = ctx.builder.lib('asan', SRCS, cpu=cpu)
+    objs = ctx.builder.lib('asan', SRCS, cpu=cpu, defs=(('NDEBUG',) if tag.startswith('ndebug') else ()))
     return ctx.builder.driver('c01-' + tag, 'asan', ['c01_hash.c'], objs, libs=(), cpu=cpu)
 
 
@@ -592,7 +595,7 @@ def run(ctx):
         [('shard', exe, seeds[i], ctx.tier, i, n) for i in range(n)] + \
         [('shard', exep, seeds[n + i], ctx.tier, i, n) for i in range(n)] + \
         [('shard', xe, seeds[(2 + j) * n + i], ctx.tier, i, n) for j, xe in enumerate(xexes)
-         for i in range(0, n, 2)]       # every second shard's share of the enumerations
+         for i in range(j % 2, n, 4)]   # every fourth shard's share of the enumerations
     allres = core.pmap(_job, jobs)
     hres = [r for j, r in zip(jobs, allres) if j[0] == 'huge']
     lres = [r for j, r in zip(jobs, allres) if j[0] == 'long']
@@ -616,7 +619,7 @@ def run(ctx):
     if any(r['evals'] == 0 for r in hres) and not ctx.violations and not ctx.known_hits:
         ctx.note_inconclusive('a single call of 2^32+d bytes gave no answer')
     ctx.cov['builds'] = ['default (SHA-NI / SSE2 / SSE4.2 as the CPU allows)', 'portable (no CPU feature compiled in)'] + \
-        ['%s (CPUSUPPORT: %s; half of the shards)' % (t, ' '.join(c)) for t, c in EXTRA_BUILDS] + \
+        ['%s (CPUSUPPORT: %s; a quarter of the shards)' % (t, ' '.join(c or ['all'])) for t, c in EXTRA_BUILDS] + \
         (['nosan (default CPU features, -O1, no sanitizers; only the quick SHA-1 call of 2^32+d bytes)']
          if 'nosan' in exes else [])
     ctx.count('long_streams_over_2^32_bits', sum(r['evals'] for r in lres))
